@@ -66,6 +66,12 @@ func parseCType(s string) (*CType, error) {
 			}
 		}
 		return nil, fmt.Errorf("bad map type %q", s)
+	case strings.HasPrefix(s, "seq["):
+		e, err := parseCType(s[4 : len(s)-1])
+		if err != nil {
+			return nil, err
+		}
+		return &CType{Kind: "seq", Elem: e}, nil
 	case strings.HasPrefix(s, "set["):
 		e, err := parseCType(s[4 : len(s)-1])
 		if err != nil {
@@ -102,6 +108,8 @@ func (e *CExpr) String() string {
 		return fmt.Sprintf("'%s'", e.Name)
 	case "old":
 		return "old(" + e.Args[0].String() + ")"
+	case "pre":
+		return "pre(" + e.Args[0].String() + ")"
 	case "call":
 		var as []string
 		for _, a := range e.Args {
@@ -582,6 +590,18 @@ func (p *cparser) primary() (*CExpr, error) {
 			return &CExpr{Op: "nil", Name: "nil"}, nil
 		case "result":
 			return &CExpr{Op: "result", Name: "result"}, nil
+		case "pre":
+			if p.isOp("(") {
+				p.p++
+				a, err := p.expr()
+				if err != nil {
+					return nil, err
+				}
+				if err := p.expect(")"); err != nil {
+					return nil, err
+				}
+				return &CExpr{Op: "pre", Args: []*CExpr{a}}, nil
+			}
 		case "old":
 			if p.isOp("(") {
 				p.p++
